@@ -102,9 +102,49 @@ const (
 	c12KUnlimited
 	c12KMixed
 	c12KSame
+	c12KDigits
 )
 
-var c12KindNames = []string{"shrink", "grow", "shift", "unlimited", "mixed", "same"}
+var c12KindNames = []string{"shrink", "grow", "shift", "unlimited", "mixed", "same", "digits"}
+
+// c12DigitsUp is the direction of the running "digits" rewrite: the target's decimal string is an
+// extension (up) or a proper prefix (down) of the file's current content - 100000 -> 10000,
+// 40960000 -> 4096000, cpus "0-15" -> "0-1" - the pairs a textual comparison gets wrong.
+var c12DigitsUp bool
+
+// c12DigitsSet looks for a contiguous cpu range within ub whose canonical string is a proper prefix
+// or an extension of the canonical string of start.
+func c12DigitsSet(r *kit.Rand, start, ub uint64) (uint64, bool) {
+	cur := c12Ranges(start)
+	if cur == "" {
+		return 0, false
+	}
+	var cands []uint64
+	n := len(c12CPUIDs)
+	for i := 0; i < n; i++ {
+		var m uint64
+		for j := i; j < n; j++ {
+			if j > i && c12CPUIDs[j] != c12CPUIDs[j-1]+1 {
+				break
+			}
+			m |= 1 << uint(j)
+			if m&^ub != 0 {
+				break
+			}
+			t := c12Ranges(m)
+			if t == cur {
+				continue
+			}
+			if c12DigitsUp && strings.HasPrefix(t, cur) || !c12DigitsUp && strings.HasPrefix(cur, t) {
+				cands = append(cands, m)
+			}
+		}
+	}
+	if len(cands) == 0 {
+		return 0, false
+	}
+	return kit.Pick(r, cands), true
+}
 
 // ---------------------------------------------------------------------------------------------
 // value model: a cpuset is a bitmask, a limit is a number with c12Inf = unlimited
@@ -417,6 +457,14 @@ func c12PickUnits(r *kit.Rand, res int, lo, hi uint64) uint64 {
 		return hi - 1
 	case 3:
 		return lo + 1
+	case 4, 5: // round decimal values: d x 10^k (100000, 2000000; 4096 x 50000 bytes)
+		v := uint64(r.Range(1, 9))
+		for k := r.Range(2, 7); k > 0 && v <= hi/10; k-- {
+			v *= 10
+		}
+		if v >= lo && v <= hi {
+			return v
+		}
 	}
 	var caps []uint64
 	if res == c12CFS {
@@ -507,6 +555,11 @@ func c12GenTarget(r *kit.Rand, res, kind int, start, ub, universe uint64) uint64
 				return ub // as wide as allowed (root: every cpu)
 			}
 			return c12Subset(r, ub)
+		case c12KDigits:
+			if t, ok := c12DigitsSet(r, start, ub); ok {
+				return t
+			}
+			fallthrough
 		default: // same
 			if start != 0 && start&^ub == 0 {
 				return start
@@ -518,6 +571,29 @@ func c12GenTarget(r *kit.Rand, res, kind int, start, ub, universe uint64) uint64
 	lo, hi := c12LoUnits(res), c12HiUnits(res)
 	if ub != c12Inf {
 		hi = ub / unit
+	}
+	if kind == c12KDigits {
+		// bytes = units*unit and unit is 1 or 4096, so dropping / appending a decimal digit of the
+		// unit count does the same to the byte string whenever the dropped digit is 0
+		su := start / unit
+		switch {
+		case start == c12Inf:
+		case c12DigitsUp && su > 0 && su <= hi/10:
+			t := su * 10
+			if res == c12CFS && t+9 <= hi {
+				t += uint64(r.Intn(10))
+			}
+			return t * unit
+		case !c12DigitsUp && su/10 >= lo && su >= 10 && (res == c12CFS || su%10 == 0):
+			t := su / 10
+			if t%10 == 0 && t/10 >= lo && t >= 10 && r.Pct(30) {
+				t /= 10 // two digits
+			}
+			if t <= hi {
+				return t * unit
+			}
+		}
+		kind = c12KSame
 	}
 	switch kind {
 	case c12KShrink:
@@ -897,6 +973,7 @@ func (w *c12World) topo() []int {
 func (w *c12World) genTargets(r *kit.Rand, ri, kind int) {
 	res := w.res[ri]
 	n := len(w.dirs)
+	c12DigitsUp = r.Pct(35)
 	// frozen files keep their start value (some of them are also left out of the batch)
 	mode := r.Weighted(40, 30, 20, 10)
 	lvl := r.Intn(w.maxDepth + 1)
@@ -923,6 +1000,9 @@ func (w *c12World) genTargets(r *kit.Rand, ri, kind int) {
 	if res >= c12MemMin && r.Pct(25) {
 		slack = uint64(r.Range(1, 4095))
 		w.c.Count("executor_rewrites_with_unaligned_memory_bytes", 1)
+	}
+	if kind == c12KDigits {
+		slack = 0 // the byte string itself is what matters here
 	}
 	if w.qosShape && res == c12MemHigh {
 		for i := 0; i < n; i++ {
@@ -1276,7 +1356,7 @@ func TestVerifC12Executor(t *testing.T) {
 						f.start = f.cur
 					}
 					for ri := range w.res {
-						kinds[ri] = r.Weighted(20, 20, 20, 15, 20, 5)
+						kinds[ri] = r.Weighted(18, 18, 18, 14, 18, 5, 14)
 						w.genTargets(r, ri, kinds[ri])
 						c.Count("executor_rewrite_kind_"+c12KindNames[kinds[ri]], 1)
 					}
